@@ -118,7 +118,7 @@ PROPS['C17'] = {
     'design_ref': 'DESIGN.md section 5 C17',
 }
 PROPS['C07'] = {
-    'units': ['rename', 'topo', 'cfg', 'cfg_all', 'merge', 'write', 'tos', 'deps', 'serdecase'], 'kani': ['kint'],
+    'units': ['rename', 'topo', 'cfg', 'cfg_all', 'merge', 'write', 'tos', 'deps', 'serdecase', 'recon'], 'kani': ['kint'],
     'title': 'never panics or spins (kernel)',
     'technique': 'panic-freedom (unwrap/index/slice/overflow/callee preconditions) and termination (decreases) obligations of every function put under '
                  'contract for the other properties, with weakest preconditions (Verus); Kani overflow/cast checks on integer.rs',
@@ -148,6 +148,21 @@ PROPS['C13'] = {
 PROPS['C07']['units'].append('tos')
 PROPS['C07']['units'].append('deps')
 
+PROPS['C09'] = {
+    'units': ['recon'],
+    'title': 'references use the name the type is defined under (IR kernel)',
+    'technique': 'Verus postcondition on reconcile.rs::check_type (extracted verbatim, real RustType): the type expression equals a recursive '
+                 'Seq-level rewrite in which every mentioned type name is replaced by the name its definition is emitted under',
+    'level_text': 'For every type expression (any depth through Vec / array / slice / Option / HashMap / generic arguments): after check_type every '
+                  'mentioned name for which the rename table has an entry - as a plain type and as a generic type - is the renamed name, and nothing '
+                  'else in the expression changes (structure, other names, generic parameters).',
+    'level_note': 'Kernel at the IR level only: which name a definition is printed under, and prefixing, are format strings in six back ends (text '
+                  'emission, not under contract); the loop over a generic type\'s arguments (slice::IterMut) is outlined with an assumed element-wise '
+                  'effect; resolve_renamed is a pure stub; the loops applying check_type to every field / variant / alias are not under contract.',
+    'design_ref': 'DESIGN.md section 10.7',
+    'bounded': ['recon'],
+}
+PROPS['C07']['units'].append('recon')
 PROPS['C03']['bounded'] = ['merge', 'tos']
 PROPS['C06']['bounded'] = ['merge', 'cli_determinism']
 PROPS['C11']['bounded'] = ['topo', 'deps']
@@ -158,7 +173,7 @@ PROPS['C18']['bounded'] = ['kint']
 PROPS['C20']['bounded'] = ['cfg_all', 'cli_config']
 PROPS['C07']['bounded'] = ['rename', 'topo', 'cli_robust']
 
-NOT_APPLICABLE = {k: NA_TEXT for k in ['C01', 'C02', 'C04', 'C05', 'C08', 'C09', 'C10', 'C12', 'C14', 'C15', 'C19']}
+NOT_APPLICABLE = {k: NA_TEXT for k in ['C01', 'C02', 'C04', 'C05', 'C08', 'C10', 'C12', 'C14', 'C15', 'C19']}
 
 ALL_UNITS = ['topo', 'rename', 'cfg', 'cfg_all', 'merge', 'write']
 ALL_KANI = ['kint']
